@@ -371,12 +371,15 @@ def build_many(specs):
 # --------------------------------------------------------------------------------------
 # known findings
 # --------------------------------------------------------------------------------------
-def known_findings(pid):
-    p = os.path.join(ROOT, "known_findings.json")
-    if not os.path.exists(p):
-        return []
-    d = json.load(open(p))
-    return [f for f in d.get("findings", []) if f.get("property") == pid and f.get("status") == "known"]
+def known_findings(pid, status="known"):
+    """entries of known_findings.json and known_findings.d/*.json for this property"""
+    out = []
+    files = [os.path.join(ROOT, "known_findings.json")] + sorted(glob.glob(os.path.join(ROOT, "known_findings.d", "*.json")))
+    for p in files:
+        if os.path.exists(p):
+            d = json.load(open(p))
+            out += [f for f in d.get("findings", []) if f.get("property") == pid and f.get("status") == status]
+    return out
 
 
 # --------------------------------------------------------------------------------------
